@@ -141,6 +141,8 @@ def rule_K(ck, lib, pfx):
             for c in x.conds:
                 if c[0] == "true" and c[1][0] == "call" and c[1][1].endswith("::is_empty") and S(c[1][2][0]) == rt:
                     empty = c[2]
+                if c[0] == "empty" and S(c[1]) == rt:
+                    empty = c[2]        # the same test written as a slice pattern: `[]` / `[_, ..]`
                 # the same test written on the length: remaining.len() == 0 / != 0 / > 0
                 if c[0] == "true" and c[1][0] == "bin" and c[1][1] in ("Eq", "Ne", "Gt") and S(c[1][2]) == ("call", "core::slice::len", (rt,)) and c[1][3] == ("lit", "int", 0):
                     empty = c[2] if c[1][1] == "Eq" else (not c[2])
